@@ -86,11 +86,21 @@ Quads == {<<Sc(GR(x)), Sc(GR(y)), Sc(GR(w)), Sc(GR(v))>> : x \in {Q(-1, 1), Q(2,
                                                            w \in {Q(-1, 1), Q(2, 1), Q(1, 2)}, v \in {Q(-1, 1), Q(2, 1), Q(1, 2)}}
 ZeroFlags(args) == {nz \in [1..Len(args) -> BOOLEAN] : \A i \in 1..Len(args) : nz[i] => GIs0(args[i].e[1])}
 \* (families only split the work between TLC workers: one seed per (function, family))
-MultiFams == {"realpairs", "mixed", "triples", "quads", "allpairs"}
+\* kronecker is exact equality: distinct numbers that are relatively (or absolutely) close, and equal controls of the same size
+ClosePairs == {<<Q(100000, 1), Q(100001, 1)>>, <<Q(1000000, 1), Q(1000001, 1)>>, <<Q(100000000, 1), Q(100000001, 1)>>,
+               <<Q(1000000000, 1), Q(1000000001, 1)>>, <<Q(-100000, 1), Q(-100001, 1)>>,
+               <<Q(1, 1000000000), Q(2, 1000000000)>>, <<Zero, Q(5, 1000000000)>>, <<Q(-1, 1000000000), Q(1, 1000000000)>>,
+               <<One, Q(10000001, 10000000)>>, <<Q(3, 1), Q(30000003, 10000000)>>, <<Q(1, 2), Q(5000001, 10000000)>>,
+               <<Q(1000, 1), Q(1000000001, 1000000)>>}
+CloseArgs == UNION {{<<Sc(GR(p[1])), Sc(GR(p[2]))>>, <<Sc(GR(p[2])), Sc(GR(p[1]))>>, <<Sc(GR(p[1])), Sc(GR(p[1]))>>,
+                     <<Sc(GR(p[2])), Sc(GR(p[2]))>>, <<Sc(<<Zero, p[1]>>), Sc(<<Zero, p[2]>>)>>,
+                     <<Sc(<<p[1], p[2]>>), Sc(<<p[1], p[1]>>)>>, <<Sc(<<p[1], p[2]>>), Sc(<<p[1], p[2]>>)>>} : p \in ClosePairs}
+MultiFams == {"realpairs", "mixed", "triples", "quads", "allpairs", "close"}
 MultiArgs(f, fam) == CASE fam = "realpairs" -> IF f = "kronecker" THEN {} ELSE RealPairs
                        [] fam = "mixed" -> IF f = "kronecker" THEN {} ELSE MixedPairs
                        [] fam = "triples" -> IF f \in {"min", "max"} THEN Triples ELSE {}
                        [] fam = "quads" -> IF f \in {"min", "max"} THEN Quads ELSE {}
+                       [] fam = "close" -> IF f = "kronecker" THEN CloseArgs ELSE {}
                        [] fam = "allpairs" -> IF f = "kronecker" THEN {<<Sc(x), Sc(y)>> : x \in PairPts, y \in PairPts} ELSE {}
 MultiCases(f, fam) == UNION {[kind : {"multi"}, f : {f}, args : {args},
                               nz : {Tup(nz, Len(args)) : nz \in (IF f = "arctan2" THEN ZeroFlags(args) ELSE {NoNz(Len(args))})}]
@@ -229,7 +239,8 @@ LawMulti == c.kind = "multi" =>
    LET x == c.args[1].e[1]  y == c.args[2].e[1]  o == out.o.formula IN
    /\ (c.f = "arctan2" /\ IsRe(x) /\ IsRe(y)) => LawAngle(x[1], y[1])
    /\ (c.f = "arctan2") => ((o.k = "err") <=> (~IsRe(x) \/ ~IsRe(y) \/ (GIs0(x) /\ GIs0(y))))
-   /\ (c.f = "kronecker") => (LawKronecker(x, y) /\ LawAbsMultiplicative(x, y))
+   /\ (c.f = "kronecker") => (LawKronecker(x, y) /\ ((\A q \in {x[1], x[2], y[1], y[2]} : Abs(q[1]) <= 100 /\ q[2] <= 100) => LawAbsMultiplicative(x, y)))
+   /\ (c.f = "kronecker") => (o = XS(IF x = y THEN GI(1) ELSE GI(0)))
    /\ (c.f \in {"min", "max"} /\ o.k = "exact") =>
         LawMinMax(Tup([i \in 1..Len(c.args) |-> c.args[i].e[1][1]], Len(c.args)))
    \* min and max are symmetric in their arguments
